@@ -145,10 +145,42 @@ def _prune(d, keep, maxkeep=16):
 
 # ------------------------------------------------------------------ model ----
 
+COVER = os.environ.get("VERIF_COVER")  # directory: which bodies did this check look at / evaluate (tools/coverage.py)
+TOUCHED = {}
+
+
+class _Body(dict):
+    """dict that notes when its expression tree is read (only used under VERIF_COVER)."""
+
+    def __getitem__(self, k):
+        if k == "body":
+            TOUCHED[dict.__getitem__(self, "i")] = max(TOUCHED.get(dict.__getitem__(self, "i"), 0), 1)
+        return dict.__getitem__(self, k)
+
+    def get(self, k, d=None):
+        if k == "body":
+            TOUCHED[dict.__getitem__(self, "i")] = max(TOUCHED.get(dict.__getitem__(self, "i"), 0), 1)
+        return dict.get(self, k, d)
+
+
+def note_eval(body):
+    if COVER:
+        TOUCHED[body["i"]] = 2
+
+
+def dump_cover(prop):
+    if COVER:
+        os.makedirs(COVER, exist_ok=True)
+        with open(os.path.join(COVER, prop + ".json"), "w") as fh:
+            json.dump(TOUCHED, fh)
+
+
 class Facts:
     def __init__(self, path):
         with open(path) as fh:
             d = json.load(fh)
+        if COVER:
+            d["bodies"] = [_Body(b) for b in d["bodies"]]
         self.raw = d
         self.S = d["strs"]
         self.crate = d["crate"]
